@@ -61,5 +61,3 @@ pub mod c15gen {
 }
 #[cfg(all(kani, feature = "c20"))]
 pub mod c20;
-#[cfg(all(kani, feature = "witness"))]
-pub mod probe;
